@@ -154,14 +154,19 @@ def check_mono(case, rec):
     nm = ref.names(c)
     last, cen, nxt = idx[0:-2:2], idx[1::2], idx[2::2]
     df = pd.DataFrame({nm['last']: last, nm['center']: cen, nm['next']: nxt})
+    keep_rows = [i for i in range(len(df)) if not (case.get('drop_rows') and (case['drop_rows'] >> (i % 16)) & 1)] or [0]
+    if len(keep_rows) < len(df):
+        df = df.iloc[keep_rows]          # a row subset (bursting cycles only, artefacts masked): rows are no longer contiguous in time
+        if case.get('reset_index', True):
+            df = df.reset_index(drop=True)
     got = guarded(compute_monotonicity, df, x.copy())
     cmp_exact('monotonicity', got, ref.ref_monotonicity(x, df))
     got = np.asarray(got, dtype=float)
     if np.any(got < 0) or np.any(got > 1):
         raise Violation('monotonicity:outside-unit-interval', str(got))
     plateau = any(np.any(np.diff(x[a:b + 1]) == 0) for a, b in zip(idx[:-1], idx[1:]))
-    rec.label('center:' + c, 'plateau-step' if plateau else 'no-plateau')
-    rec.nontrivial(plateau)
+    rec.label('center:' + c, 'plateau-step' if plateau else 'no-plateau', 'row-subset' if len(keep_rows) < len(cen) else 'all-rows')
+    rec.nontrivial(plateau or len(keep_rows) < len(cen))
 
 
 @st.composite
@@ -193,7 +198,8 @@ def strat_mono(draw, tier):
     x = draw(st.lists(st.integers(-3, 3), min_size=n, max_size=n))
     k = draw(st.integers(1, max(1, (n - 1) // 2)))
     idx = sorted(draw(st.sets(st.integers(0, n - 1), min_size=2 * k + 1, max_size=2 * k + 1)))
-    return {'x': x, 'idx': idx, 'center': draw(st.sampled_from(['peak', 'trough']))}
+    return {'x': x, 'idx': idx, 'center': draw(st.sampled_from(['peak', 'trough'])),
+            'drop_rows': draw(st.one_of(st.just(0), st.just(0), st.integers(1, 2 ** 16 - 1))), 'reset_index': draw(st.booleans())}
 
 
 PARTS = [
